@@ -52,7 +52,7 @@ class Mod(object):
 class Func(object):
     """One function (top-level, method or nested)"""
 
-    __slots__ = ("qual", "mod", "node", "cls", "outer", "locals", "params", "nested")
+    __slots__ = ("qual", "mod", "node", "cls", "outer", "locals", "params", "nested", "local_imports")
 
     def __init__(self, qual, mod, node, cls, outer):
         self.qual = qual
@@ -61,6 +61,7 @@ class Func(object):
         self.cls = cls
         self.outer = outer
         self.nested = {}
+        self.local_imports = {}
         a = node.args
         self.params = [
             x.arg for x in (a.posonlyargs + a.args + a.kwonlyargs)
@@ -246,6 +247,14 @@ class Index(object):
                 elif isinstance(n, (ast.Import, ast.ImportFrom)):
                     for a in n.names:
                         f.locals.add(a.asname or a.name.split(".")[0])
+                        if isinstance(n, ast.Import):
+                            if a.asname:
+                                f.local_imports[a.asname] = ("mod", a.name)
+                            else:
+                                r0 = a.name.split(".")[0]
+                                f.local_imports[r0] = ("mod", r0)
+                        elif a.name != "*":
+                            f.local_imports[a.asname or a.name] = ("sym", self.abs_from(m, n), a.name)
                 elif isinstance(n, ast.Lambda):
                     a = n.args
                     # lambda parameters shadow too (over-approximation: treated as function locals)
@@ -361,13 +370,18 @@ class Index(object):
             return None
         root = chain[0]
         f = func
+        ent = None
         while f is not None:
             if root in f.nested and len(chain) == 1:
                 return f.nested[root].qual
             if root in f.locals:
-                return None
+                ent = f.local_imports.get(root)
+                if ent is None:
+                    return None
+                break
             f = f.outer
-        ent = m.top.get(root)
+        if ent is None:
+            ent = m.top.get(root)
         if ent is None:
             if root in BUILTINS:
                 return ".".join(["builtins"] + chain)
